@@ -39,7 +39,7 @@ def search(ctx, res, problems):
 
 
 PROP = {
-    "streams": streams, "search": search,
+    "streams": streams, "search": search, "translators": gc.translators_gauss,
     "rule": ("real barriers + real lu_table/lu_table2 dumped (gtab: tableOK and the barrier hypotheses evaluated, builder model compared cell by cell); "
              "getNoise(out,1) on scripted strings (gdec): every probe of a bisection over the wp-word strings for each step of the step function "
              "(gstep: recovered step = barrier), each barrier and its neighbours, both ends of every first-level cell and of every second-level cell "
@@ -60,6 +60,7 @@ PROP = {
              "gpar: on every object built, _word_precision / _bit_precision / _number_of_barriers against exact-integer consequences of k = lambda+1+ceil(log2 m) "
              "(Model/GaussParams.lean: tailOK, precOK); distinct = distinct lines, all non-trivial"),
     "trusted_base": props.COMMON_TB + [
+        gc.GAUSS_AST_TB,
         "the barrier table is a parameter of the model: read from the live object with -fno-access-control (its hypotheses are validated on every table seen)",
         "MPFR/GMP (used by the code and, at 1536 bits, by the harness's distance computation); the distance computation itself (harness/gauss.cpp tv_ratio_ppm) is trusted, not verified",
         "scripted nfl::fastrandombytes replaces the PRNG at link time",
